@@ -217,6 +217,7 @@ def run_check(mod: Any, tier: str, seed: int) -> int:
         print(f"KNOWN-FINDING: property={prop} {f['what']}")
     exit_code = 0
     reported = 0
+    unreproduced: list[tuple[str, dict[str, Any]]] = []
     for s in new_sigs:
         vs = sorted(by_sig[s], key=lambda v: len(json.dumps(v["case"], default=repr)))
         v = vs[0]
@@ -239,12 +240,11 @@ def run_check(mod: Any, tier: str, seed: int) -> int:
                     except Exception:  # noqa: BLE001
                         rerun.append(False)
             if not (rerun and all(rerun)):
-                sys.stdout.write(
-                    f"INFRA-ERROR: violation {s!r} did not reproduce on replay (nondeterminism leak)\n"
-                    + json.dumps({k: x for k, x in v.items() if k != "_shard"}, default=repr)[:2000]
-                    + "\n"
-                )
-                return 2
+                # Not reproducible from this case or its shard alone. If state kept by the implementation between
+                # shards caused it, another violation of this run is reproducible and names the culprit: report those,
+                # mention this one. If nothing at all reproduces, the harness itself is at fault.
+                unreproduced.append((s, v))
+                continue
             v = dict(v)
             v["case"] = {"replay_shard": list(shard) if isinstance(shard, tuple) else shard, "tier": tier, "failing_case": v["case"],
                          "note": "history-dependent: the case holds when run alone and fails after the cases that precede it in this shard"}
@@ -257,6 +257,18 @@ def run_check(mod: Any, tier: str, seed: int) -> int:
             print(f"  observed: {json.dumps(v['observed'], default=repr, ensure_ascii=True)[:300]}")
             reported += 1
         exit_code = 1
+
+    if unreproduced:
+        if exit_code == 0:
+            s, v = unreproduced[0]
+            sys.stdout.write(
+                f"INFRA-ERROR: violation {s!r} did not reproduce on replay (nondeterminism leak)\n"
+                + json.dumps({k: x for k, x in v.items() if k != "_shard"}, default=repr)[:2000]
+                + "\n"
+            )
+            return 2
+        for s, _v in unreproduced[:5]:
+            print(f"NOTE: {s} was also observed but fails only after other cases ran in the same process (see the reproducible violations above)")
 
     wall = time.time() - t0
     exhaustive = (not agg.capped) and bool(meta.get("exhaustive", True))
